@@ -468,8 +468,23 @@ func genCase(r *rand.Rand, long bool) core.Case {
 	}
 	for i := 0; i < budget && g.curH < N; i++ {
 		switch k := r.Intn(100); {
-		case k < 6:
+		case k < 3:
 			g.concurrentReport()
+		case k < 6: // a peer's evidence message, and what we would gossip to a peer at some height
+			if r.Intn(3) != 0 {
+				n := 1 + r.Intn(3)
+				var l []string
+				for j := 0; j < n; j++ {
+					l = append(l, g.someEvidence())
+				}
+				g.do("recv l=" + strings.Join(l, ","))
+			} else {
+				ph := fmt.Sprint(g.curH - 3 + r.Int63n(int64(g.c.A)+8))
+				if r.Intn(10) == 0 {
+					ph = "-"
+				}
+				g.do(fmt.Sprintf("prep e=%s ph=%s", g.someEvidence(), ph))
+			}
 		case k < 11:
 			g.unseenBlock()
 		case k < 15:
@@ -824,7 +839,7 @@ func hostileLine(r *rand.Rand, g *gctx) string {
 	l := []string{
 		"frobnicate", "add", "add e=nosuch", "check l=nosuch,alsonot", "check", "update h=x ev=-", "update ev=-",
 		fmt.Sprintf("update h=%d ev=-", g.N+5), "grow h=0", fmt.Sprintf("grow h=%d", g.N+1), "grow h=y", "init h=1",
-		"blk t=5 vals=k1:1:k1", "blk h=1 t=5 vals=0badc0de:1:0badc0de cr=0 cf=2 hash=00000000 d=zz", "report e=nosuch swap=0", "report e=d1", "pe", "pe max=z", "restart now",
+		"blk t=5 vals=k1:1:k1", "blk h=1 t=5 vals=0badc0de:1:0badc0de cr=0 cf=2 hash=00000000 d=zz", "report e=nosuch swap=0", "report e=d1", "pe", "pe max=z", "restart now", "recv", "recv l=nosuch", "prep e=nosuch ph=3", "prep e=d1 ph=q",
 		"ev id=q kind=dv", "ev id=q kind=zz hash=00 sz=1 vb=1 tvp=1 t=1", "update h=1 ev=nosuch", "report e=d1 swap=2",
 	}
 	return l[r.Intn(len(l))]
